@@ -46,6 +46,22 @@ def _now_name(fn: ast.FunctionDef) -> str:
     return "sim_time" if "sim_time" in params else "current_time"
 
 
+def strategy_extremes(ctx: Context, rule: str) -> None:
+    """get_fastest_strategy / get_slowest_strategy compute min / max by runtime over the CURRENT strategy set on every call."""
+    if not rule.startswith("C12"):
+        ctx.rule(rule, "ExecutionStrategies.get_fastest_strategy / get_slowest_strategy return min / max by runtime over the current "
+                       "strategies on every call (no memo that can go stale when a strategy is added): planners take the parent's "
+                       "worst-case runtime and the admission bound from them")
+    es = ctx.repo.mod("workload/strategy.py").cls("ExecutionStrategies")
+    for name, fn_name in (("get_fastest_strategy", "min"), ("get_slowest_strategy", "max")):
+        gf = method(es, name)
+        rets = [r for r in ast.walk(gf) if isinstance(r, ast.Return) and r.value is not None and not (isinstance(r.value, ast.Constant) and r.value.value is None)]
+        ok = bool(rets) and all(isinstance(r.value, ast.Call) and call_name(r.value) == fn_name and "runtime" in norm(r.value) and "self._strategies" in norm(r.value) for r in rets)
+        ctx.check(ok, rule, f"ExecutionStrategies.{name}|{fn_name} by runtime, computed per call", loc(gf), f"{fn_name}(strategies, key=runtime)",
+                  f"{name} returns {[norm(r.value)[:50] for r in rets]}: not the {fn_name}imum-runtime strategy of the current set (a cached value goes "
+                  "stale when strategies are added later)")
+
+
 def r1_admission(ctx: Context) -> None:
     ctx.rule("C12.R1", "admission siblings: enforce_deadlines and deadline < now + fastest.runtime -> CANCEL_TASK decision, task excluded from placement")
     shown = []
@@ -115,12 +131,7 @@ def r1_admission(ctx: Context) -> None:
         ctx.check(bool(apps), "C12.R1", key + "|cancellation is part of the returned decisions", loc(cancels[0]), "appended", "the cancellation decision is dropped")
     ctx.sample({"admission_guards": shown})
     ctx.floor("C12.R1", "admission sites", len(shown), 4)
-    # fastest strategy = min runtime
-    es = ctx.repo.mod("workload/strategy.py").cls("ExecutionStrategies")
-    gf = method(es, "get_fastest_strategy")
-    rets = [r for r in ast.walk(gf) if isinstance(r, ast.Return) and isinstance(r.value, ast.Call)]
-    ok = any(call_name(r.value) == "min" and "runtime" in norm(r.value) and "self._strategies" in norm(r.value) for r in rets)
-    ctx.check(ok, "C12.R1", "ExecutionStrategies.get_fastest_strategy|min by runtime", loc(gf), "min(strategies, key=runtime)", "fastest strategy is not the minimum-runtime one")
+    strategy_extremes(ctx, "C12.R1")
     # enforce_deadlines accessor
     bs = ctx.repo.mod("schedulers/base_scheduler.py").cls("BaseScheduler")
     ed = method(bs, "enforce_deadlines")
@@ -299,3 +310,5 @@ def run(ctx: Context) -> None:
     ctx.isolate(r5_simulator_cascade)
     from . import c03
     ctx.isolate(c03.r9_schedule_installs_decision, rule="C12.R6")
+    from . import c10
+    ctx.isolate(c10.batch_aggregates, rule="C12.R7")
